@@ -21,7 +21,7 @@ RULE = ("cases: histories of 1-6 add() calls on configurators over 3-6 boolean i
         "ids, bare items, and rules whose id collides with an existing top-level rule/item (must be refused). non-trivial: >=2 accepted additions "
         "and at least one defaulted rule; distinct by digest of the history"
         ' Histories are trees (an addition may extend an earlier configurator); additions include bare items with integer bounds.')
-BUDGET = {"quick": (12, 120, 90), "thorough": (16, 1500, 1200)}
+BUDGET = {"quick": (12, 360, 90), "thorough": (16, 1500, 1200)}
 PYTEST = True     # thorough tier also runs the repository's own tests under these monitors
 MANDATORY = ["judged:add==direct:state", "judged:add==direct:default_prios", "judged:add==direct:polyhedron", "judged:add==direct:select",
              "judged:id-kept", "judged:earlier-unchanged", "judged:refused", "judged:refusal-leaves-unchanged", "contract:StingyConfigurator.add", "count:branching-additions", "count:item-additions"]
